@@ -252,10 +252,12 @@ pub fn pairs(size: usize, out: &mut Out) {
 /// Single group-free templates (parameters filling a segment and sharing one with literal text) against paths
 /// derived from them with values that allow several assignments.
 pub fn single(n: usize, rng: &mut Rng, out: &mut Out) {
-    let lits = ["/", "a", ".", "-", "/a/", "x", "é", "/m/"];
+    // literals that can overlap themselves (`--`, `aa`, `..`, `éé`) and values that end or start with a piece of them
+    let lits = ["/", "a", ".", "-", "/a/", "x", "é", "/m/", "--", "aa", "..", "éé", "-a-", "aba"];
     let names = ["a", "b", "c", "d"];
     let cons = ["alpha", "nota", "even", "hasslash"];
-    let vals = ["a", "a.a", "a-a.a", "a/a", "a/m/a", "aa", ".", "-", "é", "x.x", "a/a/a", "m", "/", "a.", ".a", "-a-"];
+    let vals = ["a", "a.a", "a-a.a", "a/a", "a/m/a", "aa", ".", "-", "é", "x.x", "a/a/a", "m", "/", "a.", ".a", "-a-", "a-", "-b", "--", "a--", "aaa", "b.", "..", "xé",
+        "éé", "ab", "aba", "ba", "a-a", "-a"];
     for _ in 0..n {
         let mut t = String::from("/");
         let np = 1 + rng.below(3);
@@ -433,6 +435,14 @@ pub fn parsefocus(max_len: usize, out: &mut Out) {
     for s in ["/{a}/{b}/{a}", "/{a}/{a}/{b}", "/{a}.{b}.{a}", "/{*a}/{b}/{a:u8}", "/{a}/{b}{c}", "/{a}{b}/{c}", "/{a}/{b}/{c}{a}"] {
         out.op(format!("parse {}", hex(s.as_bytes())));
         out.insert(0, s, 1);
+    }
+    // every error variant with multi-byte text before, inside and after the indicated range (byte offsets vs characters)
+    for s in ["/{é}/{é}", "/日本語/{id}/{id:u32}", "/{é}/{b}/{é}/x", "/é/{a}/{a}", "/{a}/{a}/é", "/é{a}{b}", "/{é}{b}/日", "/{é", "/é}",
+        "/日{", "/{é:}", "/é/{:a}", "/{*}/é", "/é/{*:u8}", "/é()", "/é(", "/é)/日", "/{é*}", "/é/{a*b}/é", "/{a:é/}", "/é/{a:b(}", "é",
+        "日本/{a}", "/é{}", "/{}é", "/é(/{a}/{a})", "(/é{a}{b})/日"] {
+        out.op(format!("parse {}", hex(s.as_bytes())));
+        out.insert(0, s, 1);
+        out.delete(0, s);
     }
 }
 
